@@ -9,6 +9,7 @@ RULE = ("TLC explores RingBuf.tla (one action per atomic load/store) exhaustivel
         "A case = one execution; distinct by event-text hash; non-trivial = at least one step.")
 ASSUMPTIONS = ["sequentially consistent interleavings at atomic-operation granularity (C07 covers ordering)",
                "one producer context and one consumer context"]
+LOOSE = ("TraceRingBufLoose", "TraceRingBufLoose.cfg")
 ACTIONS = ["PutLoadW", "PutLoadR", "PutStore", "PutPub", "GetLoadR", "GetLoadW", "GetRead", "GetPub", "EmptyLoadR", "EmptyLoadW"]
 
 PROGS = {
@@ -55,7 +56,7 @@ def run_rb(run, exe, trace_mod="TraceRingBuf", trace_cfg="TraceRingBuf.cfg", cfg
             with open(t, "rb") as f:
                 shutil.copyfileobj(f, out)
     if validate:
-        check_trace(run, "edge-cover", trace_mod, trace_cfg, allp)
+        check_trace(run, "edge-cover", trace_mod, trace_cfg, allp, loose=LOOSE if trace_mod == "TraceRingBuf" else None)
     sample_trace(run, traces[0], 10)
     n = nrandom or (6000 if run.thorough() else 1000)
     gen = "Gen %d %d 0\nGen %d %d 1\n" % (run.seed * 10 + 1, n, run.seed * 10 + 2, n)
@@ -63,7 +64,7 @@ def run_rb(run, exe, trace_mod="TraceRingBuf", trace_cfg="TraceRingBuf.cfg", cfg
     gen += "Fill 70001 0\nFill 65537 65530\n"                                                     # rings larger than 64 KiB, filled completely
     tr = exec_script(run, exe, [], gen, run.path(tagp + "random.ndjson"), "random-schedules")
     if validate:
-        check_trace(run, "random-schedules", trace_mod, trace_cfg, tr)
+        check_trace(run, "random-schedules", trace_mod, trace_cfg, tr, loose=LOOSE if trace_mod == "TraceRingBuf" else None)
     return [allp, tr]
 
 
